@@ -217,6 +217,63 @@ func ruleTypeStr(c *Ctx) {
 				}
 			}
 		}
+		// table form: v.Type looked up in a read-only package-level map whose entries allocate the configuration
+		var tableOK ssa.Value
+		for _, b := range pj.Blocks {
+			for _, in := range b.Instrs {
+				lk, ok := in.(*ssa.Lookup)
+				if !ok || !lk.CommaOk {
+					continue
+				}
+				ld, ok := lk.X.(*ssa.UnOp)
+				if !ok {
+					continue
+				}
+				g, ok := ld.X.(*ssa.Global)
+				if !ok {
+					continue
+				}
+				if ro, _ := c.readOnlyGlobal(g); !ro {
+					continue
+				}
+				for s, v := range c.globalMapEntries(g) {
+					var f *ssa.Function
+					switch x := v.(type) {
+					case *ssa.Function:
+						f = x
+					case *ssa.MakeClosure:
+						f, _ = x.Fn.(*ssa.Function)
+					}
+					if f == nil {
+						continue
+					}
+					for _, fb := range f.Blocks {
+						for _, fin := range fb.Instrs {
+							al, ok := fin.(*ssa.Alloc)
+							if !ok {
+								continue
+							}
+							if named, ok := al.Type().(*types.Pointer).Elem().(*types.Named); ok {
+								for _, T := range c.configTypes() {
+									if T == named {
+										if _, dup := cases[named.Obj().Name()]; dup {
+											cases[named.Obj().Name()] = "\x00ambiguous"
+										} else {
+											cases[named.Obj().Name()] = s
+										}
+									}
+								}
+							}
+						}
+					}
+				}
+				for _, r := range *lk.Referrers() {
+					if ex, ok := r.(*ssa.Extract); ok && ex.Index == 1 {
+						tableOK = ex
+					}
+				}
+			}
+		}
 		// default: returns a non-nil error
 		okDefault := false
 		for _, b := range pj.Blocks {
@@ -226,9 +283,12 @@ func ruleTypeStr(c *Ctx) {
 			}
 			if k, isNil := r.Results[0].(*ssa.Const); isNil && k.Value == nil {
 				// (nil, err): either json error or the default
-				all := true
+				all := tableOK == nil
 				for _, cd := range fi.condsAt(b) {
 					cd2 := unNot(cd)
+					if tableOK != nil && cd2.V == tableOK && !cd2.True {
+						all = true
+					}
 					if bo, ok := cd2.V.(*ssa.BinOp); ok && bo.Op == token.EQL {
 						if _, isS := constString(bo.Y); isS && cd2.True {
 							all = false
@@ -732,7 +792,68 @@ func collectFieldDeps(v ssa.Value, root ssa.Value, deps map[string]bool, depth i
 
 // ---------------------------------------------------------------- R-INIT-ORDER
 
+// verifiedValueKept: in every function of package lz that calls Verify on a local configuration value (a by-value
+// parameter or a local copy), that value is not stored to after the call: what is kept and reported is the value
+// that was verified (and, before that, completed by SetDefaults), not a later adjustment of it.
+func (c *Ctx) verifiedValueKept() {
+	n := 0
+	for _, fn := range c.allFuncs {
+		if fn.Pkg != c.lz || fn.Blocks == nil {
+			continue
+		}
+		var fi *FuncInfo
+		for _, b := range fn.Blocks {
+			for _, in := range b.Instrs {
+				call, ok := in.(*ssa.Call)
+				if !ok || call.Call.StaticCallee() == nil || call.Call.StaticCallee().Name() != "Verify" || len(call.Call.Args) == 0 {
+					continue
+				}
+				al, ok := call.Call.Args[0].(*ssa.Alloc)
+				if !ok {
+					continue
+				}
+				if fi == nil {
+					fi = c.info(fn)
+				}
+				n++
+				key := fnName(fn) + ":verified-value-kept"
+				var bad ssa.Instruction
+				for _, b2 := range fn.Blocks {
+					for _, in2 := range b2.Instrs {
+						if !fi.instrReaches(call, in2) {
+							continue
+						}
+						switch x := in2.(type) {
+						case *ssa.Store:
+							if r, _, ok := pathStr(x.Addr); ok && r == ssa.Value(al) {
+								bad = x
+							}
+						case *ssa.Call:
+							if callee := x.Call.StaticCallee(); callee != nil && x != call && len(x.Call.Args) > 0 && x.Call.Args[0] == ssa.Value(al) && callee.Name() != "Verify" {
+								for _, k := range c.mayWrite(callee) {
+									if strings.HasPrefix(k, "p0.") {
+										bad = x
+									}
+								}
+							}
+						}
+					}
+				}
+				if bad != nil {
+					c.fail(key, bad.Pos(), "the configuration value is modified after Verify accepted it (%s): the parser keeps and reports a configuration that differs from the defaults-completed, verified one", bad)
+				} else {
+					c.ok(key, call.Pos(), "the verified configuration value is not modified after Verify")
+				}
+			}
+		}
+	}
+	if n == 0 {
+		c.fail("verified-value-kept", token.NoPos, "no Verify call on a local configuration value found")
+	}
+}
+
 func ruleInitOrder(c *Ctx) {
+	c.verifiedValueKept()
 	for _, p := range c.parsers() {
 		if p.Cfg == nil {
 			c.fail("lz."+p.Name+":config", p.T.Obj().Pos(), "parser type embeds no config type")
